@@ -133,13 +133,16 @@ def run_job(env, job):
         good = UPC + b'-:' + WS
         for where in ('upstream', 'revision'):
             for pos in (0, 1):
-                x = symstr('x', 1)
-                a, b_ = symstr('a', pos), symstr('b', 1 - pos)
-                assume = [z3.Not(in_set(x[0], good))] + [in_set(c, UPC) for c in list(a) + list(b_)]
-                if where == 'upstream':
-                    rej([b'1', a, x, b_], assume, 'upstream with a byte outside the alphabet at %d' % (pos + 1))
-                else:
-                    rej([b'1-', a, x, b_], assume, 'revision with a byte outside the alphabet at %d' % pos)
+                for nx in ((1, 2) if env.tier == 'quick' else (1, 2, 3)):
+                    # nx bytes none of which is in the alphabet (so also multi-byte UTF-8 letters and digits),
+                    # always followed by a valid character so that it is not trailing whitespace
+                    x = symstr('x', nx)
+                    a, b_ = symstr('a', pos), symstr('b', 1)
+                    assume = [z3.Not(in_set(c, good)) for c in x] + [in_set(c, UPC) for c in list(a) + list(b_)]
+                    if where == 'upstream':
+                        rej([b'1', a, x, b_], assume, 'upstream with %d byte(s) outside the alphabet at %d' % (nx, pos + 1))
+                    else:
+                        rej([b'1-', a, x, b_], assume, 'revision with %d byte(s) outside the alphabet at %d' % (nx, pos))
     elif cl == 'empty':
         for n in (0, 1, 2):
             w = symstr('w', n)
